@@ -125,6 +125,9 @@ func c13Modes(src string) (kind, detail string, accepted bool) {
 	}
 	// the same four results on a builder that carries an unused language extension
 	for i, m := range Modes {
+		if pbPlugLang {
+			break // the long-lived extension builders speak the plain language
+		}
 		c13Parses++
 		x := parseWith(c13ExtPB(i), src)
 		if x.Panic != "" {
@@ -307,6 +310,60 @@ func c13Options(c *core.Ctx) {
 	}
 }
 
+// c13PlugLang: the mode product on the plugin language (statements that a plugin parses with ExpectToken,
+// ParseStatement, ExpectSemicolonASI ...): what the modes mean does not depend on who calls the parser's methods.
+// Clause A only (strict-accepted => tolerant identical; the smart flag is immaterial without a line-initial bracket;
+// tolerant reports strict's first error unless it is a missing separator or an unclosed block).
+func c13PlugLang(c *core.Ctx, viol func(clause, k, d, src, src2 string, size int)) {
+	pbPlugLang = true
+	defer func() { pbPlugLang = false }()
+	run := func(src string, size int) {
+		c.Cur(src)
+		c.Inc("inputs")
+		c.Inc("plugin_language_inputs")
+		k, d, _ := c13Modes(src)
+		viol("P", k, d, src, "", size)
+	}
+	n := 3
+	if c.Thorough() {
+		n = 4
+	}
+	A := plugLangAlphabet
+	for L := 1; L <= n; L++ {
+		gen.EachSeq(len(A), L, func(idx []int) bool {
+			if !c.Next() {
+				return true
+			}
+			if c.Tick() {
+				return false
+			}
+			has := false
+			for _, x := range idx {
+				if x >= 1 && x <= 3 {
+					has = true
+				}
+			}
+			if !has {
+				return true
+			}
+			run(gen.Join(A, idx, " "), L)
+			if L >= 2 {
+				run(gen.Join(A, idx, "\n"), L)
+			}
+			return true
+		})
+	}
+	for i, src := range plugLangPrograms(c.Thorough()) {
+		if !c.Mine(int64(i)) || c.Tick() {
+			continue
+		}
+		run(src, 50)
+		run(strings.ReplaceAll(src, " ", "\n"), 50)
+		run(strings.ReplaceAll(strings.ReplaceAll(src, " ; ", "\n"), " ;", ""), 50) // separators by line break only
+		run(strings.ReplaceAll(src, " ;", ""), 50)                                 // separators dropped (tolerant mode's business)
+	}
+}
+
 func c13Run(c *core.Ctx) {
 	processWarmup(c)
 	c13Options(c)
@@ -323,6 +380,8 @@ func c13Run(c *core.Ctx) {
 		pl, _ := json.Marshal(c13Payload{clause, src, src2})
 		c.Violate(core.Violation{Kind: clause + "-" + k, Case: fmt.Sprintf("%q", src), Detail: d, Payload: pl, Size: size})
 	}
+	c13PlugLang(c, viol)
+
 	// (A) all token sequences <= n in space and LF layouts
 	n := 4
 	if c.Thorough() {
@@ -633,6 +692,10 @@ func c13Replay(pl json.RawMessage) (string, []core.Violation) {
 		k, d = c13Late(p.Src)
 	case "A":
 		k, d, _ = c13Modes(p.Src)
+	case "P":
+		pbPlugLang = true
+		k, d, _ = c13Modes(p.Src)
+		pbPlugLang = false
 	case "C":
 		k, d, _ = c13Same(p.Src, Mode{Smart: true}, p.Src2, Mode{})
 	default:
@@ -647,7 +710,7 @@ func c13Replay(pl json.RawMessage) (string, []core.Violation) {
 func init() {
 	core.Register(&core.PropSpec{
 		ID: "C13", Level: "model_checking",
-		Rule:     "mode product: every token sequence <= n (4 quick, 5 thorough) in space and LF layouts and every statement-family program (simple statements covering each ASI-relevant first token, compound forms with brace-less/block bodies, nested function expressions) in every layout with <= k deviations (k=1 quick, 2 thorough) is parsed in the 4 mode combinations: strict-accepted => tolerant yields the identical tree dump (positions, flags, comments) and no errors; without a line-initial ( or [ the smart flag changes nothing (tree, acceptance, error count); with one, smart == default on the text with ';' inserted before each line-initial INFIX bracket (prefix-position brackets unchanged); on rejected inputs tolerant reports the same first error as strict unless that error is a missing separator or an unclosed block; every fused statement pair (separator dropped, next token cannot continue) and every removal of a trailing run of statement-level closing braces is accepted by tolerant mode with the tree of the intact program. states = distinct states of the mode product (acceptance, error count and tree shape in each of the 4 modes), transitions = parses executed Added: clause B also in tolerant+smart mode; open blocks also without the last / without all semicolons; multi-line tokens followed by ( [ . in 11 templates x 4 literals; the scale family; every result also on long-lived builders that carry an unused language extension; clause E: every history of <= 4 option calls {WithTolerantMode(true|false), WithSmartSemicolon(true|false)} on a fresh builder (a parser built in the middle) gives the parser of the mode the last calls name, on 6 probes that tell the modes apart.",
+		Rule:     "mode product: every token sequence <= n (4 quick, 5 thorough) in space and LF layouts and every statement-family program (simple statements covering each ASI-relevant first token, compound forms with brace-less/block bodies, nested function expressions) in every layout with <= k deviations (k=1 quick, 2 thorough) is parsed in the 4 mode combinations: strict-accepted => tolerant yields the identical tree dump (positions, flags, comments) and no errors; without a line-initial ( or [ the smart flag changes nothing (tree, acceptance, error count); with one, smart == default on the text with ';' inserted before each line-initial INFIX bracket (prefix-position brackets unchanged); on rejected inputs tolerant reports the same first error as strict unless that error is a missing separator or an unclosed block; every fused statement pair (separator dropped, next token cannot continue) and every removal of a trailing run of statement-level closing braces is accepted by tolerant mode with the tree of the intact program. states = distinct states of the mode product (acceptance, error count and tree shape in each of the 4 modes), transitions = parses executed Added: clause B also in tolerant+smart mode; open blocks also without the last / without all semicolons; multi-line tokens followed by ( [ . in 11 templates x 4 literals; the scale family; every result also on long-lived builders that carry an unused language extension; clause E: every history of <= 4 option calls {WithTolerantMode(true|false), WithSmartSemicolon(true|false)} on a fresh builder (a parser built in the middle) gives the parser of the mode the last calls name, on 6 probes that tell the modes apart. Plugin language (round 12/13, clause P): the clause-A mode product on the subset extended by three plugin statement kinds parsed with ExpectToken / ParseStatement / ParseBlockStatement / ExpectSemicolonASI: all token sequences <= 3 (4) with a plugin keyword in two joinings, 400 programs in 4 layouts (blanks, a line break in every gap, separators by line break only, separators dropped).",
 		Assume:   []string{"bracket roles (infix vs prefix position) come from the harness unparser, cross-checked against goja by C02"},
 		QuickSec: 400, ThorSec: 3000, Run: c13Run, Replay: c13Replay,
 		Evals: "inputs", Nontriv: "accepted_programs", States: "distinct_mode_product_states", Trans: "mode_parses",
